@@ -202,6 +202,9 @@ def abi_const(repo, name, _depth=0):
     return val
 
 
+ALLOC_TAGS = {"box-slice", "box", "array-object"}     # cells standing for well-aligned, non-null allocations
+
+
 class GcInterp(Interp):
     def __init__(self, prog, models, extra_progs=()):
         Interp.__init__(self, prog, models, extra_progs)
@@ -238,6 +241,6 @@ class GcInterp(Interp):
     def cast(self, a, ty, kind):
         # address of a modelled heap allocation (Box / Vec buffer): the allocator contract gives a non-null address
         # aligned for the element type; only rustc's debug alignment / null checks look at it
-        if kind == "Transmute" and ty.strip() == "usize" and isinstance(a, Ref) and a.cell.tag in ("box-slice", "box"):
+        if kind == "Transmute" and ty.strip() == "usize" and isinstance(a, Ref) and a.cell.tag in ALLOC_TAGS:
             return Int(0x10000, "usize")
         return Interp.cast(self, a, ty, kind)
